@@ -408,14 +408,15 @@ Fixpoint bequiv (a b : bval) {struct a} : bool :=
   | _, _ => false
   end.
 
-(* the value trees of the property: int64 integers, byte strings, distinct
-   keys in every dictionary *)
+(* the value trees of the property: int64 integers, byte strings (of a length
+   a Go int can hold), distinct keys in every dictionary *)
+Definition strb (s : bytes) : bool := wf_bytes s && (Z.of_nat (length s) <? 2 ^ 63).
 Fixpoint canonb (v : bval) : bool :=
   match v with
   | BInt z => (- 2 ^ 63 <=? z) && (z <? 2 ^ 63)
-  | BStr s => wf_bytes s
+  | BStr s => strb s
   | BList l => forallb canonb l
-  | BDict d => keys_nodup (map fst d) && forallb (fun kv => match kv with (k, x) => wf_bytes k && canonb x end) d
+  | BDict d => keys_nodup (map fst d) && forallb (fun kv => match kv with (k, x) => strb k && canonb x end) d
   end.
 
 (* total string bytes in a value (keys included): what decoding it must store *)
